@@ -22,6 +22,10 @@ CHECKS = {
          "TLA+ acceptor (posOnly, strictness in Finish) model-checked with TLC; replay of all states; trace validation", "6 (C09)"),
  "C18": (MC, "Environment states are part of the initial states of CmdLine.tla (every assignment of {unset, valid, unconvertible, guard-failing, non-UTF-8} to the declared variables); Finish consults a variable only when the item has no occurrence on the line; all (environment, line) states replayed with the process environment set accordingly, each also with an undeclared variable set.",
          "TLA+ acceptor with environment in the initial states, model-checked with TLC; replay of all states; trace validation", "6 (C18)"),
+ "C07": (MC, "GroupLine.tla gives choices a declarative denotation (owners; greedy leftmost rounds for repeated choices); TLC enumerates all lines up to the bound over 2..4-branch choices under bare/optional/many/some, checks AltExclusive, and every state is replayed with exact values; driver lines validated by TLC (GroupLineTrace).",
+         "TLA+ acceptor GroupLine.tla (choice denotation) model-checked with TLC; replay of all states; trace validation", "6 (C07)"),
+ "C19": (MC, "GroupLine.tla models adjacent groups as blocks opened by the group's first item, filled by members, closed by anything else; AdjContiguous and CutKills are checked by TLC; all lines up to the bound (blocks at every position, split, cut, `--`/help inside) are replayed with exact values; driver lines validated by TLC.",
+         "TLA+ acceptor GroupLine.tla (block automaton) model-checked with TLC; replay of all states; trace validation", "6 (C19)"),
 }
 NOTE = "Bounded: exhaustive within the stated constants, sampled beyond; trusted: TLC, the JSON reader, the dynamic builder (public bpaf API only)."
 
@@ -34,8 +38,10 @@ def main():
                    "baseline_off_cmd": "cd /repo && cargo nextest run --workspace --no-fail-fast --test-threads 8 --offline",
                    "source_commits": hook_commits, "add_only": True},
          "engines": [
-             {"name": "cmdline", "path": "tla/CmdLine.tla", "serves_properties": sorted(CHECKS),
-              "kind_free_text": "TLA+ left-to-right acceptor with denotation; TLC design/replay/trace configurations; Rust harness building real bpaf parsers from the same JSON definitions"}],
+             {"name": "cmdline", "path": "tla/CmdLine.tla", "serves_properties": sorted(set(CHECKS) - {"C07", "C19"}),
+              "kind_free_text": "TLA+ left-to-right acceptor with denotation; TLC design/replay/trace configurations; Rust harness building real bpaf parsers from the same JSON definitions"},
+             {"name": "groupline", "path": "tla/GroupLine.tla", "serves_properties": ["C07", "C19"],
+              "kind_free_text": "TLA+ acceptor for one level with choices and adjacent groups (extends CmdLine); TLC replay/trace configurations"}],
          "checks": [], "not_applicable": [],
          "notes": "bin/check <id> --tier quick|thorough; exit 0 held, 1 VIOLATION line, 2 infrastructure. known_findings.json lists recorded defects."}
     for p in props:
@@ -46,7 +52,7 @@ def main():
                                 "thorough_cmd": f"bin/check {pid} --tier thorough",
                                 "evidence_file": f"/verif/evidence/{pid}.json",
                                 "replay_cmd_template": f"bin/check {pid} --replay {{path}}",
-                                "engine": "cmdline",
+                                "engine": "groupline" if pid in ("C07", "C19") else "cmdline",
                                 "level_claimed": {"category": lvl, "text": text, "design_ref": f"DESIGN.md section {ref}"},
                                 "level_note": NOTE, "technique": tech})
         else:
